@@ -56,11 +56,22 @@ RULE = ("complete enumeration inside stated bounds, in blocks. combine_slices: e
         "transposed view, Fortran-ordered copy, strided-rows view, reversed-columns view (1-d: reversed and strided "
         "views), three slices of it as a categorical array, and int / "
         "float alphabets; index_lookup: every data tuple up to length 3 x every ordered duplicate-free item list. "
-        "distinct = distinct (helper, input) fingerprints (combine_slices: rows).")
+        "Widening classes (vf/lib_C20_widen.py): combine_slices on lengths 1e6 .. 2**62 (ends near 0, the middle and the "
+        "end, steps up to 101, congruence oracle); iterate_chunks / find_chunk_shape on shapes up to 1e6 elements with "
+        "limits far below / at / above the size, numpy-integer shapes and limits, 0-d shape; view_shape tuples with "
+        "backward (bounded, stepped, empty), empty, stepped, out-of-range and numpy-integer slices, duplicate / "
+        "out-of-order / negative / small-dtype index arrays, shapes as lists or numpy integers, 0-d shape; unbroadcast on "
+        "nine further dtypes / byte orders; broadcast_arrays_minimal with reversed / strided inputs and the same object "
+        "twice; unique / categorical_ndarray / index_lookup over 19 dtype alphabets (widths, shared prefixes, bytes, "
+        "objects, bool, int8 .. uint64 extremes, float32, floats agreeing to 1e-9, big-endian, mixed objects), empty "
+        "arrays, arrays of 100 .. 1000 (thorough 20000) rows with duplicates, call histories (jitter on / off, categories "
+        "assigned before / after codes were read, views and copies after the read) and raising calls followed by valid "
+        "ones. distinct = distinct (helper, input) fingerprints (combine_slices: rows).")
 ASSUMPTIONS = ["numpy basic/advanced indexing, slice.indices and np.broadcast_to are trusted (they are the definition)",
                "combine_slices is only defined for positive steps; negative steps are not generated",
                "n_max >= 1 and chunk shapes with every entry >= 1 that fit the shape; other arguments are outside the statement",
-               "NaN and mixed-type categorical values are outside 'a small alphabet' and are not generated",
+               "NaN / None categorical values are outside 'a small alphabet' and are not generated; for mixed-type object arrays only uniqueness and categories[codes] == values are required (no order is defined)",
+               "combine_slices calls whose overlap holds fewer than two common elements scan the whole overlap (O(n)); on the 1e6 .. 2**62 lengths those are skipped and counted (a cost, not an exactness, matter)",
                "byte bounds of unbroadcast(a) vs a are recorded as evidence only (zero-size arrays: see C10)"]
 ANCHORS = ["glue.utils.array:find_chunk_shape", "glue.utils.array:iterate_chunks", "glue.utils.array:combine_slices",
            "glue.utils.array:unbroadcast", "glue.utils.array:broadcast_arrays_minimal", "glue.utils.array:view_shape",
